@@ -276,10 +276,30 @@ static void tr_internals(Run *r) {
     /* separate, un-keyed token: capacities legitimately depend on the schedule (clone points, parser/state calls) */
     tx_printf(&r->tr, ":a%zu cap:%zu,%zu,%zu ", p->argcount - p->pending, p->bufcap, p->statecap, p->argcap);
 }
+/* direct oracle for the error / dead latch (Props.C11.error_latch, dead_latch): while an error is latched or the parser is dead,
+   parser/byte, parser/consume and parser/eof must all panic and leave every field of the struct alone.  Prints only on failure. */
+static void latch_probe(Run *r) {
+    JanetParser *p = (JanetParser *) janet_unwrap_abstract(r->pv);
+    size_t l = p->line, c = p->column, sc = p->statecount, ac = p->argcount, bc = p->bufcount, pd = p->pending;
+    int lb = p->lookback, fl = p->flag;
+    const char *er = p->error;
+    Janet out;
+    Janet a[2] = { r->pv, janet_wrap_integer(40) };
+    int p1 = pcallc(cfun_parse_byte, 2, a, &out);
+    Janet b[1] = { r->pv };
+    int p2 = pcallc(cfun_parse_eof, 1, b, &out);
+    Janet d[2] = { r->pv, janet_cstringv("x (") };
+    int p3 = pcallc(cfun_parse_consume, 2, d, &out);
+    p = (JanetParser *) janet_unwrap_abstract(r->pv);
+    if (!p1 || !p2 || !p3 || l != p->line || c != p->column || sc != p->statecount || ac != p->argcount || bc != p->bufcount ||
+            pd != p->pending || lb != p->lookback || fl != p->flag || er != p->error)
+        tx_printf(&r->ev, "LATCH-MOVED:%d%d%d ", p1, p2, p3);
+}
 static void handle_error(Run *r) {
     Janet out;
     Janet a[1] = { r->pv };
     tr_status(r, "es");
+    latch_probe(r);
     tr_where(r, "ew");
     if (!r->rawerr) drain(r);
     tr_status(r, "es2");
@@ -369,6 +389,7 @@ static void op_eof(Run *r) {
     if (pcallc(cfun_parse_eof, 1, a, &out)) { tr_panic(r, "E", out); return; }
     r->eofoff = 1000000;
     if (status_is(r, "error")) handle_error(r);
+    latch_probe(r);       /* dead (or dead + error already taken): nothing may be accepted any more */
     tr_status(r, "E");
 }
 
